@@ -8,7 +8,8 @@ LEVEL = 'exploration'
 RULE = ('cell = (router class, hash type, destination set, replication factor, DIVERSE_REPLICAS); for each cell '
         'getDestinations() is executed twice for one key per ring position 0..65535 (keys found by hashing '
         'candidate strings) plus random metric names; a cell is non-trivial when it has >=2 destinations or '
-        'RF>=2; distinct = distinct cells')
+        'RF>=2; after the fresh sweep up to 4 remove/re-add steps are applied and the oracle is re-run on every 16th '
+        'position against the then-configured set; distinct = distinct cells')
 EXHAUSTIVE = {'quick': True, 'thorough': True}
 EXHAUSTIVE_OVER = 'ring positions 0..65535 per cell (key space of the ring through the public API)'
 ASSUMPTIONS = ['mmh3_ch hash type not runnable (mmh3 absent): only carbon_ch and fnv1a_ch are quantified over',
@@ -143,6 +144,37 @@ def run_config(cfg, res):
             res.violation(cfg['router'] + '/outer', 'aggregated router output malformed for %r: %r / %r' % (key, o1, o2),
                           dict(key=key, cell=cell))
             break
+    # membership changes: the same structural oracle must hold for whatever set is configured *now*
+    if ok and len(dests) >= 2:
+      live = list(dests)
+      steps = []
+      for step in range(4):
+        if len(live) > 1 and (step % 2 == 0 or len(live) == len(dests)):
+          # prefer removing one instance of a server that has several
+          multi = [d for d in live if sum(1 for e in live if e[0] == d[0]) > 1]
+          victim = r.choice(multi or live)
+          router.removeDestination(victim)
+          live.remove(victim)
+          steps.append(['remove', list(victim)])
+        else:
+          gone = [d for d in dests if d not in live]
+          if not gone:
+            break
+          back = r.choice(gone)
+          router.addDestination(back)
+          live.append(back)
+          steps.append(['add', list(back)])
+        conf_now = set(live)
+        elig_now = len(set(d[0] for d in live)) if cell['diverse'] else len(live)
+        cell_now = dict(cell, dests=[list(d) for d in live], history=steps)
+        bad = False
+        for key in table[(step * 5) % 16::16]:
+          if not check_key(res, target, key, cell_now, conf_now, elig_now, cfg['router'] + '/' + cfg['hash_type'] + '/after-membership-change'):
+            bad = True
+            break
+        res.count('membership_change_sweeps')
+        if bad:
+          break
     res.maxc('max_positions_covered_in_a_cell', len(positions))
     if len(positions) < 65536 and ok:
       res.inconc('only %d/65536 ring positions covered by the key table (hash function differs from the reference?)'
